@@ -162,7 +162,7 @@ func (d MarchingCanvas) fieldBounds(f Field) (modeling.VectorInt, modeling.Vecto
 	return minCanvas, maxCanvas
 }
 
-func (d MarchingCanvas) getSection(attribute string, dataType MarchingDataType) *marchingSection {
+func (d *MarchingCanvas) getSection(attribute string, dataType MarchingDataType) *marchingSection {
 	if section, ok := d.sections[attribute]; ok {
 		if section.dataType != dataType {
 			panic(fmt.Errorf("field already exists with type: %d, can't add type %d", section.dataType, dataType))
